@@ -58,7 +58,7 @@ def script(ctx, cfg, model, cookies):
     rng = ctx.rng
     # --- flows: a base tuple and relatives differing in exactly one field
     v6 = rng.random() < 0.5
-    e = gen.endp(rng, cfg, v6)
+    e = gen.endp(rng, cfg, v6, own_src=0.03)
     sp, dp = gen.rnd_port(rng), gen.rnd_port(rng)
     flows = [(e, sp, dp)]
     for _ in range(rng.choice([0, 1, 2, 3, 5])):
